@@ -26,10 +26,20 @@
                        resolve request); nothing is awaited between this and Close on one thread,
                        but another thread can still enqueue in between
        Close(i)        `inbox.close()`, `recv_many` leftover, task returns (joinable)
+       CloseOnShutdown(i)  the loop's first (biased) branch: the shutdown token is cancelled -> break with whatever
+                       is queued; initial messages were handled before the loop was entered
+     environment:
+       Cancel          the endpoint's shutdown token is cancelled (endpoint closing)
+       NetChange       `on_network_change`: try_send a NetworkChange message to every sender in the map
 
    Requests: `req[m] = [r, kind, tag, via]`; kind "resolve" with tag > 0 carries addresses (answered at
    once), tag = 0 carries none (waits for the lookup unless the instance already knows a path);
-   kind "info" is a `RemoteInfo` query sent with try_send.
+   kind "info" is a `RemoteInfo` query sent with try_send; kind "netchange" is fire-and-forget.
+
+   Shutdown (growth beyond C21's statement): after Cancel an instance still handles its *initial* messages, so
+   the leftover of a cancelled actor is handled by its successor - accepted messages are handled even then
+   (NeverDropped, ShutdownDrains) - but resolve requests that were waiting for a lookup lose their reply
+   channel (`dropped`); C21 itself is about idle shutdown, where nothing may be dropped.
 
    Switches for known-bad designs (model checking runs with both FALSE; each TRUE is refuted):
      RestartBeforeJoin   the historical bug: on SendError start a new actor without joining the old task
@@ -47,11 +57,13 @@ VARIABLES sender,    \* [Remotes -> 0..MaxInst]: instance whose inbox sender is 
           req, nreq, \* issued requests
           handled,   \* [Remotes -> Seq(request id)] in handling order
           accepted,  \* requests that entered an inbox or an initial-message list
-          answered   \* requests whose reply was sent
-vars == <<sender, inst, ninst, joinable, sapc, tspc, req, nreq, handled, accepted, answered>>
+          answered,  \* requests whose reply was sent
+          cancelled, \* the shutdown token
+          dropped    \* waiting requests whose instance stopped because of shutdown
+vars == <<sender, inst, ninst, joinable, sapc, tspc, req, nreq, handled, accepted, answered, cancelled, dropped>>
 
 NoRemote == "-"
-NoInst == [r |-> NoRemote, phase |-> "unused", inbox |-> <<>>, left |-> <<>>, waiting |-> {}, known |-> FALSE]
+NoInst == [r |-> NoRemote, phase |-> "unused", inbox |-> <<>>, left |-> <<>>, waiting |-> {}, known |-> FALSE, ninit |-> 0]
 NoReq  == [r |-> NoRemote, kind |-> "-", tag |-> 0, via |-> "-"]
 SaIdle == [op |-> "idle", r |-> NoRemote, m |-> 0]
 TsIdle == [op |-> "idle", r |-> NoRemote, m |-> 0, i |-> 0]
@@ -60,6 +72,7 @@ Init == /\ sender = [r \in Remotes |-> 0] /\ inst = [i \in 1..MaxInst |-> NoInst
         /\ joinable = {} /\ sapc = SaIdle /\ tspc = TsIdle
         /\ req = [m \in 1..MaxReq |-> NoReq] /\ nreq = 0
         /\ handled = [r \in Remotes |-> <<>>] /\ accepted = {} /\ answered = {}
+        /\ cancelled = FALSE /\ dropped = {}
 
 Live(i) == inst[i].phase \in {"running", "deciding"}        \* the inbox is open
 SetOf(s) == {s[k] : k \in 1..Len(s)}
@@ -68,7 +81,7 @@ SetOf(s) == {s[k] : k \in 1..Len(s)}
 Start(r, msgs) ==
   /\ ninst < MaxInst /\ ninst' = ninst + 1
   /\ inst' = [inst EXCEPT ![ninst + 1] = [r |-> r, phase |-> "running", inbox |-> msgs, left |-> <<>>,
-                                           waiting |-> {}, known |-> FALSE]]
+                                           waiting |-> {}, known |-> FALSE, ninit |-> Len(msgs)]]
   /\ sender' = [sender EXCEPT ![r] = ninst + 1]
   /\ accepted' = accepted \cup SetOf(msgs)
 
@@ -77,11 +90,11 @@ SaLookup(r, k, t) ==
   /\ sapc.op = "idle" /\ nreq < MaxReq /\ nreq' = nreq + 1
   /\ req' = [req EXCEPT ![nreq + 1] = [r |-> r, kind |-> k, tag |-> t, via |-> "sa"]]
   /\ sapc' = [op |-> IF sender[r] = 0 THEN "starting" ELSE "send", r |-> r, m |-> nreq + 1]
-  /\ UNCHANGED <<sender, inst, ninst, joinable, tspc, handled, accepted, answered>>
+  /\ UNCHANGED <<sender, inst, ninst, joinable, tspc, handled, accepted, answered, cancelled, dropped>>
 
 SaStart ==
   /\ sapc.op = "starting" /\ Start(sapc.r, <<>>) /\ sapc' = [sapc EXCEPT !.op = "send"]
-  /\ UNCHANGED <<joinable, tspc, req, nreq, handled, answered>>
+  /\ UNCHANGED <<joinable, tspc, req, nreq, handled, answered, cancelled, dropped>>
 
 SaSend ==
   /\ sapc.op = "send"
@@ -89,7 +102,7 @@ SaSend ==
        /\ Live(i) /\ Len(inst[i].inbox) < InboxCap          \* closed: SendError (SaJoin*); full: wait
        /\ inst' = [inst EXCEPT ![i].inbox = Append(@, sapc.m)]
   /\ accepted' = accepted \cup {sapc.m} /\ sapc' = SaIdle
-  /\ UNCHANGED <<sender, ninst, joinable, tspc, req, nreq, handled, answered>>
+  /\ UNCHANGED <<sender, ninst, joinable, tspc, req, nreq, handled, answered, cancelled, dropped>>
 
 SendFailed == sapc.op = "send" /\ ~Live(sender[sapc.r])
 
@@ -102,73 +115,101 @@ RemoveOrRestart(i, msgs) ==
          /\ LET ms == IF DropLeftover THEN <<msgs[Len(msgs)]>> ELSE msgs IN
             /\ inst' = [inst EXCEPT ![i].phase = "joined",
                                     ![ninst + 1] = [r |-> inst[i].r, phase |-> "running", inbox |-> ms, left |-> <<>>,
-                                                    waiting |-> {}, known |-> FALSE]]
+                                                    waiting |-> {}, known |-> FALSE, ninit |-> Len(ms)]]
             /\ accepted' = accepted \cup SetOf(ms)
          /\ sender' = [sender EXCEPT ![inst[i].r] = ninst + 1]
 
 SaJoinOther(i) ==
   /\ SendFailed /\ i \in joinable /\ inst[i].r # sapc.r
   /\ joinable' = joinable \ {i} /\ RemoveOrRestart(i, inst[i].left)
-  /\ UNCHANGED <<sapc, tspc, req, nreq, handled, answered>>
+  /\ UNCHANGED <<sapc, tspc, req, nreq, handled, answered, cancelled, dropped>>
 
 SaJoinOwn(i) ==
   /\ SendFailed /\ i \in joinable /\ inst[i].r = sapc.r
   /\ joinable' = joinable \ {i} /\ RemoveOrRestart(i, Append(inst[i].left, sapc.m)) /\ sapc' = SaIdle
-  /\ UNCHANGED <<tspc, req, nreq, handled, answered>>
+  /\ UNCHANGED <<tspc, req, nreq, handled, answered, cancelled, dropped>>
 
 Cleanup(i) ==
   /\ sapc.op = "idle" /\ i \in joinable
   /\ joinable' = joinable \ {i} /\ RemoveOrRestart(i, inst[i].left)
-  /\ UNCHANGED <<sapc, tspc, req, nreq, handled, answered>>
+  /\ UNCHANGED <<sapc, tspc, req, nreq, handled, answered, cancelled, dropped>>
 
 \* the historical bug: a fresh actor for a closed sender before the old task is joined
 SaRestartBeforeJoin ==
   /\ RestartBeforeJoin /\ SendFailed
   /\ Start(sapc.r, <<sapc.m>>) /\ sapc' = SaIdle
-  /\ UNCHANGED <<joinable, tspc, req, nreq, handled, answered>>
+  /\ UNCHANGED <<joinable, tspc, req, nreq, handled, answered, cancelled, dropped>>
 
 \* ---------------------------------------------------------------- other threads
 TsLookup(r, k) ==
   /\ tspc.op = "idle" /\ nreq < MaxReq /\ sender[r] # 0 /\ nreq' = nreq + 1
   /\ req' = [req EXCEPT ![nreq + 1] = [r |-> r, kind |-> k, tag |-> 0, via |-> "ts"]]
   /\ tspc' = [op |-> "holding", r |-> r, m |-> nreq + 1, i |-> sender[r]]
-  /\ UNCHANGED <<sender, inst, ninst, joinable, sapc, handled, accepted, answered>>
+  /\ UNCHANGED <<sender, inst, ninst, joinable, sapc, handled, accepted, answered, cancelled, dropped>>
 
 TsSend ==
   /\ tspc.op = "holding" /\ tspc' = TsIdle
   /\ IF Live(tspc.i) /\ Len(inst[tspc.i].inbox) < InboxCap
         THEN inst' = [inst EXCEPT ![tspc.i].inbox = Append(@, tspc.m)] /\ accepted' = accepted \cup {tspc.m}
         ELSE UNCHANGED <<inst, accepted>>                   \* Closed / Full: the caller is told, nothing is lost
-  /\ UNCHANGED <<sender, ninst, joinable, sapc, req, nreq, handled, answered>>
+  /\ UNCHANGED <<sender, ninst, joinable, sapc, req, nreq, handled, answered, cancelled, dropped>>
 
 \* ---------------------------------------------------------------- actor instance i
 Handle(i) ==
   /\ inst[i].phase = "running" /\ inst[i].inbox # <<>>
+  /\ ~cancelled \/ inst[i].ninit > 0            \* after Cancel only the initial messages are still handled
   /\ LET m == Head(inst[i].inbox)
          immediate == req[m].kind = "info" \/ req[m].tag > 0 \/ inst[i].known
          wakes == req[m].kind = "resolve" /\ req[m].tag > 0          \* insert_multiple: empty -> non-empty
      IN /\ handled' = [handled EXCEPT ![inst[i].r] = Append(@, m)]
         /\ inst' = [inst EXCEPT ![i].inbox = Tail(@),
+                                ![i].ninit = IF @ > 0 THEN @ - 1 ELSE 0,
                                 ![i].known = @ \/ wakes,
-                                ![i].waiting = IF wakes THEN {} ELSE IF immediate THEN @ ELSE @ \cup {m}]
-        /\ answered' = answered \cup (IF immediate THEN {m} ELSE {}) \cup (IF wakes THEN inst[i].waiting ELSE {})
-  /\ UNCHANGED <<sender, ninst, joinable, sapc, tspc, req, nreq, accepted>>
+                                ![i].waiting = IF wakes THEN {} ELSE IF immediate \/ req[m].kind = "netchange" THEN @ ELSE @ \cup {m}]
+        /\ answered' = answered \cup (IF immediate /\ req[m].kind # "netchange" THEN {m} ELSE {})
+                                 \cup (IF wakes THEN inst[i].waiting ELSE {})
+  /\ UNCHANGED <<sender, ninst, joinable, sapc, tspc, req, nreq, accepted, cancelled, dropped>>
 
 LookupFinish(i) ==
   /\ inst[i].phase = "running" /\ inst[i].waiting # {}
   /\ answered' = answered \cup inst[i].waiting /\ inst' = [inst EXCEPT ![i].waiting = {}]
-  /\ UNCHANGED <<sender, ninst, joinable, sapc, tspc, req, nreq, handled, accepted>>
+  /\ UNCHANGED <<sender, ninst, joinable, sapc, tspc, req, nreq, handled, accepted, cancelled, dropped>>
 
 IdleDecide(i) ==
-  /\ inst[i].phase = "running" /\ inst[i].inbox = <<>> /\ inst[i].waiting = {}
+  /\ inst[i].phase = "running" /\ inst[i].inbox = <<>> /\ inst[i].waiting = {} /\ ~cancelled
   /\ inst' = [inst EXCEPT ![i].phase = "deciding"]
-  /\ UNCHANGED <<sender, ninst, joinable, sapc, tspc, req, nreq, handled, accepted, answered>>
+  /\ UNCHANGED <<sender, ninst, joinable, sapc, tspc, req, nreq, handled, accepted, answered, cancelled, dropped>>
 
 Close(i) ==
   /\ inst[i].phase = "deciding"
   /\ inst' = [inst EXCEPT ![i].phase = "returned", ![i].left = inst[i].inbox, ![i].inbox = <<>>]
   /\ joinable' = joinable \cup {i}
-  /\ UNCHANGED <<sender, ninst, sapc, tspc, req, nreq, handled, accepted, answered>>
+  /\ UNCHANGED <<sender, ninst, sapc, tspc, req, nreq, handled, accepted, answered, cancelled, dropped>>
+
+CloseOnShutdown(i) ==
+  /\ cancelled /\ inst[i].phase = "running" /\ inst[i].ninit = 0
+  /\ inst' = [inst EXCEPT ![i].phase = "returned", ![i].left = inst[i].inbox, ![i].inbox = <<>>, ![i].waiting = {}]
+  /\ dropped' = dropped \cup inst[i].waiting
+  /\ joinable' = joinable \cup {i}
+  /\ UNCHANGED <<sender, ninst, sapc, tspc, req, nreq, handled, accepted, answered, cancelled>>
+
+\* ---------------------------------------------------------------- environment
+Cancel == /\ ~cancelled /\ cancelled' = TRUE
+          /\ UNCHANGED <<sender, inst, ninst, joinable, sapc, tspc, req, nreq, handled, accepted, answered, dropped>>
+
+\* on_network_change: one fire-and-forget message per sender in the map, accepted where the inbox is open and has room
+NetTargets == {r \in Remotes : sender[r] # 0 /\ Live(sender[r]) /\ Len(inst[sender[r]].inbox) < InboxCap}
+NetChange ==
+  /\ sapc.op = "idle" /\ nreq + Cardinality(Remotes) <= MaxReq
+  /\ LET idx == CHOOSE f \in [Remotes -> 1..Cardinality(Remotes)] : \A a, b \in Remotes : a # b => f[a] # f[b] IN
+       /\ nreq' = nreq + Cardinality(Remotes)
+       /\ req' = [m \in 1..MaxReq |-> IF \E r \in Remotes : m = nreq + idx[r]
+                                        THEN [r |-> CHOOSE r \in Remotes : m = nreq + idx[r], kind |-> "netchange", tag |-> 0, via |-> "ts"]
+                                        ELSE req[m]]
+       /\ inst' = [i \in 1..MaxInst |-> IF \E r \in NetTargets : sender[r] = i
+                                          THEN [inst[i] EXCEPT !.inbox = Append(@, nreq + idx[inst[i].r])] ELSE inst[i]]
+       /\ accepted' = accepted \cup {nreq + idx[r] : r \in NetTargets}
+  /\ UNCHANGED <<sender, ninst, joinable, sapc, tspc, handled, answered, cancelled, dropped>>
 
 Next == \/ (\E r \in Remotes, t \in Tags : SaLookup(r, "resolve", t)) \/ SaStart \/ SaSend
         \/ (\E i \in 1..MaxInst : SaJoinOther(i)) \/ (\E i \in 1..MaxInst : SaJoinOwn(i))
@@ -176,6 +217,7 @@ Next == \/ (\E r \in Remotes, t \in Tags : SaLookup(r, "resolve", t)) \/ SaStart
         \/ (\E r \in Remotes : TsLookup(r, "info")) \/ TsSend
         \/ (\E i \in 1..MaxInst : Handle(i)) \/ (\E i \in 1..MaxInst : LookupFinish(i))
         \/ (\E i \in 1..MaxInst : IdleDecide(i)) \/ (\E i \in 1..MaxInst : Close(i))
+        \/ (\E i \in 1..MaxInst : CloseOnShutdown(i)) \/ Cancel \/ NetChange
 Spec == Init /\ [][Next]_vars
 \* the design with the historical bug added (refuted by TLC, see RemoteMap_bug1.cfg)
 SpecRestartBeforeJoin == Init /\ [][Next \/ SaRestartBeforeJoin]_vars
@@ -207,6 +249,10 @@ AnsweredWasHandled == \A m \in answered : m \in SetOf(handled[req[m].r])
 \* when everything has settled, every request made through send_to_actor and every accepted try_send was handled and answered
 Quiescent == /\ sapc.op = "idle" /\ tspc.op = "idle" /\ joinable = {}
              /\ \A i \in 1..MaxInst : inst[i].inbox = <<>> /\ inst[i].waiting = {} /\ inst[i].phase # "deciding"
-Made == {m \in 1..nreq : req[m].via = "sa"} \cup accepted
-NoLoss == Quiescent => (\A m \in Made : m \in answered)
+Made == {m \in 1..nreq : req[m].via = "sa"} \cup {m \in accepted : req[m].kind # "netchange"}
+NoLoss == Quiescent => (\A m \in Made : m \in answered \/ m \in dropped)
+\* C21 proper: without an endpoint shutdown no reply channel is ever dropped
+NothingDroppedWithoutShutdown == ~cancelled => dropped = {}
+\* growth: even while shutting down, every accepted message reaches a handler once things have settled
+ShutdownDrains == Quiescent => \A m \in accepted : m \in SetOf(handled[req[m].r])
 =============================================================================
